@@ -13,7 +13,8 @@
     than bufio.Scanner's 64 KiB token limit.  [\s] of RE2 is [\t\n\f\r ]; strings.TrimSpace and
     strings.Fields use unicode.IsSpace, which on ASCII adds \v.
 
-    strconv.ParseFloat is a parameter [pweight] of the parser (Err = 'weight value invalid');
+    parseWeight's number reader -- strconv.ParseFloat followed, since /repo 0b2a40e, by the rejection
+    of NaN and +-Inf -- is a parameter [pweight] of the parser (Err = 'weight value invalid');
     [pweight_dec] is the in-model instance for plain decimals (all the renderer ever prints),
     compared with strconv on every weight literal of every generated case.
     No proofs in this file. *)
